@@ -387,6 +387,61 @@ def discharge(vc: VC):
     return vc
 
 
+class GlobalState:
+    """Module-level and class-level mutable containers of the code under analysis (memo dicts, registries).  The interpreter mutates
+    the REAL objects, so without care a value planted on one path (a symbol of that path) would be visible on the next one.  The
+    pristine contents are recorded once and restored before every path / native sample: paths are independent, while WITHIN a path
+    such state persists — exactly as it does between the calls of one process."""
+
+    def __init__(self, prefix="demeter"):
+        import sys
+        seen, self.saved = set(), []
+        for name, mod in list(sys.modules.items()):
+            if not (name == prefix or name.startswith(prefix + ".")):
+                continue
+            for k, v in list(vars(mod).items()):
+                self._add(k, v, seen)
+                if isinstance(v, type) and str(getattr(v, "__module__", "")).startswith(prefix):
+                    for k2, v2 in list(vars(v).items()):
+                        self._add(k2, v2, seen)
+
+    def _add(self, k, v, seen):
+        if k.startswith("__") or id(v) in seen or not isinstance(v, (dict, list, set)):
+            return
+        seen.add(id(v))
+        self.saved.append((v, v.copy()))
+
+    def restore(self):
+        for obj, snap in self.saved:
+            try:
+                same = len(obj) == len(snap) and (all(a is b for a, b in zip(obj, snap)) if isinstance(obj, list) else
+                                                   (all(k in snap and obj[k] is snap[k] for k in obj) if isinstance(obj, dict) else obj == snap))
+            except Exception:
+                same = False
+            if not same:
+                obj.clear()
+                if isinstance(obj, dict):
+                    obj.update(snap)
+                elif isinstance(obj, list):
+                    obj.extend(snap)
+                else:
+                    obj |= snap
+
+
+_GLOBALS = None
+
+
+def restore_globals():
+    global _GLOBALS
+    if _GLOBALS is None:
+        _GLOBALS = GlobalState()
+    else:
+        try:
+            _GLOBALS.restore()
+        except Exception:
+            pass
+
+
 CROSSCHECK = os.environ.get("PYVC_CROSSCHECK") == "1"
 CROSS_MAX = int(os.environ.get("PYVC_CROSS_MAX", 150))      # per PO x shape task
 
@@ -449,6 +504,7 @@ class Exploration:
             if time.time() - t_start > max_s:
                 self.unsupported.append(f"exploration time budget {max_s:.0f}s exceeded after {self.paths} paths ({len(work) + 1} pending)")
                 break
+            restore_globals()
             p = Path(prefix, self.symtab, self.paths)
             self.paths += 1
             it = Interp(p, self.config)
